@@ -381,7 +381,7 @@ pub fn run(args: &Args) -> Option<i32> {
     );
 
     let quiet = hostsvm::QuietStdout::new();
-    let shards = args.scale(4096, 65536);
+    let shards = args.scale(2048, 32768);
     let per_shard = args.scale(10, 14);
     let seed = args.seed;
     run_shards(&mut mon, args.threads, shards, |shard, m| {
